@@ -1,13 +1,13 @@
 SPECIFICATION Spec
 CONSTANTS
-  Catalogue <- CatH1
+  Catalogue <- CatNone
   DiskC = "A"
   DiskR = "A"
-  Feat = {"health", "msg", "stop"}
-  Feeds <- FeedsOne
-  MaxCum = 0
+  Feat = {"usage"}
+  Feeds <- FeedsAll
+  MaxCum = 1
   Steps = {1}
-  Outcomes = {}
+  Outcomes = {"ok"}
   ZeroReports = "keys"
   RetryFailed = TRUE
   Faithful = TRUE
